@@ -630,3 +630,34 @@ func TestC16Concurrent(t *testing.T) {
 		t.Fail()
 	}
 }
+
+// FuzzC14URL - the URL round-trip oracle under Go's native fuzzer (thorough tier extra).
+func FuzzC14URL(f *testing.F) {
+	for _, s := range []string{"http://u:p@h.example/p?a=1&b=2#f", "mailto:\"john\"@example.com", "x:?a=\\", "//h/../x", "a:%41", "https://[fe80::1%25eth0]:443/", "?only=query&x"} {
+		f.Add(s)
+	}
+	f.Fuzz(func(t *testing.T, raw string) {
+		u, err := urlutil.Parse(raw)
+		if err != nil {
+			return
+		}
+		want := u.String()
+		std, serr := url.Parse(want)
+		if serr != nil || std.String() != want || !utf8.ValidString(want) || want == "" {
+			return // net/url itself is not idempotent here, or the known invalid-UTF-8 finding
+		}
+		txt, _ := u.MarshalText()
+		var tb urlutil.URL
+		if e := tb.UnmarshalText(txt); e != nil || tb.String() != want {
+			t.Fatalf("URL %q: text %q decodes to %q (%v)", raw, txt, tb.String(), e)
+		}
+		js, e := json.Marshal(u)
+		if e != nil {
+			t.Fatalf("json.Marshal of %q: %v", raw, e)
+		}
+		var jb urlutil.URL
+		if e := json.Unmarshal(js, &jb); e != nil || jb.String() != want {
+			t.Fatalf("URL %q (String %q): JSON %s decodes to %q (%v)", raw, want, js, jb.String(), e)
+		}
+	})
+}
